@@ -5,6 +5,7 @@ scripted process whose every sample is identifiable, through the simulated pool 
 pickling) or the single-process loop. Reference model = the world's sample ledger + plain numpy.
 """
 import hashlib
+import json
 
 import numpy as np
 
@@ -27,7 +28,7 @@ ASSUMPTIONS = ["payoff reference formulas (max(+-(S-K),0), S-K) written independ
 TIERS = {
     "quick": {"worlds": 8000, "wall": 500, "shrink_budget": 60,
               "required_probes": ["c07.run_completed", "c07.vector_payoff", "c07.with_controls", "c07.pool_run",
-                                  "c07.cv_mean_equals_price", "c07.engine_reused"]},
+                                  "c07.cv_mean_equals_price", "c07.engine_reused", "c07.error_queried_before_price"]},
     "thorough": {"worlds": 60000, "wall": 3300, "shrink_budget": 150,
                  "required_probes": ["c07.run_completed", "c07.vector_payoff", "c07.with_controls", "c07.pool_run",
                                      "c07.cv_mean_equals_price", "pool.n_lt_W", "c07.n_equals_1"]},
@@ -86,6 +87,8 @@ def generate(seed, tier="quick"):
     if sc["nproc"] != 1 and r.random() < 0.2:
         # fault: one task of the pool's map call dies in its worker (before or after doing its work)
         sc["env"]["task_fail_one_in"] = r.choice([1, 2])
+    # history of READS of one statistics object: which accessor the caller uses first
+    sc["query_order"] = r.choice(["price_first", "price_first", "error_first"])
     return sc
 
 
@@ -275,6 +278,14 @@ def execute(wd, sc):
     def vec(x):
         return np.atleast_1d(np.asarray(x, dtype=float))
 
+    if sc.get("query_order") == "error_first" and n >= 2:
+        # the caller asks for the errors before the prices: accessors must be pure reads of the stored samples
+        wd.probes["c07.error_queried_before_price"] += 1
+        try:
+            stats.mc_stddev(no_control_variates=True)
+            stats.mc_stddev()
+        except Exception as e:
+            errors.append({"kind": type(e).__name__, "msg": "mc_stddev: " + str(e)[:120]})
     if len(Yref) == n and n >= 1:
         raw_mean = Yref.mean(axis=0)
         got_raw = vec(stats.price(no_control_variates=True))
@@ -336,6 +347,25 @@ def execute(wd, sc):
                     if v_adj > raw_var * (1 + 1e-9) + 1e-12 * (1.0 + float(np.max(np.abs(y))) ** 2):
                         V.append({"sig": f"C07.cv|sample variance with control variates exceeds the raw one|{cls}",
                                   "oracle": "cv", "detail": {"component": comp, "adjusted": float(v_adj), "raw": float(raw_var)}})
+    # ---- reading the results does not change them: every accessor again, in another order ------------------------
+    if len(Yref) == n and n >= 2:
+        def snap():
+            out = []
+            for f in (lambda: stats.price(no_control_variates=True), lambda: stats.mc_stddev(no_control_variates=True),
+                      lambda: stats.price(), lambda: stats.mc_stddev()):
+                try:
+                    out.append(vec(f()).tolist())
+                except Exception as e:
+                    out.append("raised " + type(e).__name__)
+            return out
+
+        first, second = snap(), snap()
+        if json.dumps(first) != json.dumps(second):
+            V.append({"sig": f"C07.reads|reading price and error twice gives different values (an accessor changed the stored samples)|{cls}",
+                      "oracle": "reads", "detail": {"first": first, "second": second}})
+        if not np.allclose(np.asarray(first[0], dtype=float), raw_mean, rtol=1e-10, atol=1e-12):
+            V.append({"sig": f"C07.reads|raw price read after the errors were read is no longer df * mean(notional * payoff)|{cls}",
+                      "oracle": "reads", "detail": {"got": first[0], "expected": raw_mean.tolist()}})
     # de-duplicate by signature
     seen = set()
     V = [v for v in V if not (v["sig"] in seen or seen.add(v["sig"]))]
